@@ -119,7 +119,7 @@ class Ctx:
                 new.setdefault(v.key(), v)
         for f in known_hit.values():
             print(f"KNOWN-FINDING: property={self.prop} {f['id']} {f['what']}", flush=True)
-        REPLAYS.mkdir(exist_ok=True)
+        REPLAYS.mkdir(parents=True, exist_ok=True)
         for v in new.values():
             h = hashlib.sha1(json.dumps([v.key(), v.detail], sort_keys=True, default=str).encode()).hexdigest()[:10]
             path = REPLAYS / f"{self.prop}-{h}.json"
@@ -153,7 +153,7 @@ class Ctx:
             "wall_s": round(time.time() - self.t0, 2),
             "violations": len(new),
         }
-        EVIDENCE.mkdir(exist_ok=True)
+        EVIDENCE.mkdir(parents=True, exist_ok=True)
         (EVIDENCE / f"{self.prop}.json").write_text(json.dumps(ev, indent=1, default=str) + "\n")
         shutil.rmtree(self.work, ignore_errors=True)
         try:
